@@ -41,6 +41,7 @@ APIS = [
     # an in-process pool whose tasks run in submission order in some environments and in reverse order in others
     ("parallel_temper", {"pool": "lazy"}), ("parallel_temper", {"pool": "lazy", "target_size": 8}),
     ("subtree_reconfigure_forest", {"pool": "lazy"}),
+    ("RandomGreedyOptimizer", {"pool": "timed"}),
     # the tree has a past (reconfigured, queried, copied) and the same non-inplace seeded call is made twice on it
     ("subtree_reconfigure", {"subtree_search": "bfs", "select": "random", "warm": True, "repeat": True}),
     ("subtree_reconfigure", {"subtree_search": "random", "select": "max", "warm": True, "repeat": True}),
